@@ -124,6 +124,17 @@ def document(version="3.0.3"):
     paths["/resp_none"] = {"get": {"operationId": "op_resp_none", "tags": ["r"], "responses": {"200": {"description": ""}, "404": {"description": ""}}}}
     paths["/resp_sec"] = {"get": {"operationId": "op_resp_sec", "tags": ["r"], "security": [{"k": []}],
                                   "responses": {"200": {"description": "", "content": {"application/json": {"schema": {"type": "string", "format": "date"}}}}}}}
+    # operations that are generated, imported and type-checked (C01 / C11) but have no Engine-F contract of their own: object-typed
+    # and array-of-object query parameters (required and optional), optional parameters of every location next to a multipart body
+    item_ref = {"$ref": "#/components/schemas/Item"}
+    paths["/typed_only"] = {"post": {"operationId": "typed_only", "tags": ["x"], "parameters": [
+        {"name": "filter", "in": "query", "required": False, "schema": item_ref},
+        {"name": "must", "in": "query", "required": True, "schema": item_ref},
+        {"name": "inline-obj", "in": "query", "required": False, "schema": {"type": "object", "properties": {"a": {"type": "integer"}}}},
+        {"name": "many", "in": "query", "required": False, "schema": {"type": "array", "items": item_ref}},
+        {"name": "when", "in": "header", "required": False, "schema": {"type": "integer"}},
+        {"name": "flag", "in": "cookie", "required": False, "schema": {"type": "boolean"}}],
+        "requestBody": {"content": {"multipart/form-data": {"schema": {"$ref": "#/components/schemas/Body"}}}}, "responses": ok}}
     doc = {"openapi": version, "info": {"title": "frag", "version": "1"}, "paths": paths,
            "components": {"schemas": comps,
                           "responses": {"NotFound": {"description": "", "content": {"application/json": {"schema": {"type": "object", "properties": {"msg": {"type": "string"}}}}}}},
